@@ -11,6 +11,7 @@ mod c07;
 mod opw;
 mod wrap;
 mod col;
+mod misc;
 mod json;
 
 pub struct Found {
@@ -66,6 +67,8 @@ fn search(prop: &str, seed: u64, obls: &[String]) -> Option<Found> {
         "C06" => opw::search("c06", seed, 60000),
         "C08" => opw::search("c08", seed, 60000),
         "C09" => wrap::search("c09", seed, 20000),
+        "C15" => misc::search_c15(seed, 3000),
+        "C17" => misc::search_c17(seed, 20000),
         "C10" => col::search("c10", seed, 300),
         "C11" => col::search("c11", seed, 150),
         "C14" => col::search("c14", seed, 150),
@@ -80,6 +83,8 @@ fn replay(prop: &str, kind: &str, case: &str) -> Option<Found> {
         "C01" | "C02" | "C03" | "C04" | "C05" | "C06" | "C08" => opw::replay(kind, case),
         "C09" | "C16" => wrap::replay(kind, case),
         "C10" | "C11" | "C14" => col::replay(kind, case),
+        "C17" => misc::replay_c17(case),
+        "C15" => misc::replay_c15(case),
         _ => None,
     }
 }
